@@ -39,6 +39,8 @@ def build_exc(name):
         return RuntimeError("simulated failure")
     if name == "ValueError":
         return ValueError("simulated failure")
+    if name == "AttributeError":
+        return AttributeError("simulated failure: 'NoneType' object has no attribute 'im'")
     if name == "StopIteration":
         return StopIteration()
     if name == "MemoryError":
